@@ -17,5 +17,8 @@ IdxGen  == [k \in MCKeys |-> CASE k = 1 -> <<0, 1, 2, 3>>
 \* (checks/c18_sketch.py reads KeyLow and AliasPairs from this file to realise the keys)
 AliasPairs == {<<4, 2>>}
 AliasOne  == [k \in MCKeys |-> {{q[2]} : q \in {r \in AliasPairs : r[1] = k}}]
+\* Push is a loop over Increment; a few sequences (full collision, false positive first, repeated key,
+\* three keys) instead of all pairs keep the branching factor at 9
+MCPush == {<<1, 2>>, <<2, 2>>, <<4, 2>>, <<3, 1, 4>>}
 AliasNone == [k \in MCKeys |-> {}]
 =============================================================================
